@@ -217,6 +217,10 @@ def flags_to_argv(flags, spell=0):
     return argv
 
 
+WEEK53_YEARS = [y for y in range(2001, 2099)
+                 if rp.cal_fields(dt.date(y, 12, 31))["week_w"] == 53 or rp.cal_fields(dt.date(y, 12, 31))["week_u"] == 53]
+
+
 def gen_epoch(rng, two_digit_year=False):
     """A start date, biased to boundaries."""
     r = rng.random()
@@ -236,6 +240,9 @@ def gen_epoch(rng, two_digit_year=False):
         return dt.date(year, month, day)
     if r < 0.25:
         month, day = rng.choice([(12, 28), (12, 29), (12, 30), (12, 31), (1, 1), (1, 2), (1, 3), (1, 4), (1, 7)])
+        if month == 12 and rng.random() < 0.5:
+            # years whose last days fall into week 53 of the Monday- or Sunday-based count (one year in seven each)
+            year = rng.choice(WEEK53_YEARS)
     elif r < 0.35:
         month, day = rng.choice([(2, 28), (3, 1), (3, 31), (4, 1), (6, 30), (7, 1), (9, 30), (10, 1)])
     else:
